@@ -227,7 +227,7 @@ DRIVERS = {
     "protocol/messages/json_rpc_message.py:JSONRPCMessageWrapper.model_dump_json": "(wrapper delegates)",
     "protocol/messages/json_rpc_message.py:JSONRPCMessage.model_dump": "(C02)",
     "protocol/messages/json_rpc_message.py:JSONRPCMessage.model_dump_json": "(C02)",
-    "protocol/messages/sampling/send_messages.py:SamplingHandler.handle_create_message": "(builds the dict by hand from a provider result; no aliased model involved)",
+    "protocol/messages/sampling/send_messages.py:SamplingHandler.handle_create_message_request": "(builds the dict by hand from a provider result; no aliased model involved)",
 }
 
 
